@@ -60,14 +60,8 @@ def run_verus(path, timeout, threads=8, rlimit=None, plain=False):
     if rlimit:
         cmd += ['--rlimit', str(rlimit)]
     t0 = time.time()
-    try:
-        p = subprocess.run(cmd, capture_output=True, text=True, timeout=timeout, env=env, cwd=os.path.dirname(path))
-        out, err, rc, to = p.stdout, p.stderr, p.returncode, False
-    except subprocess.TimeoutExpired as e:
-        out = e.stdout.decode() if isinstance(e.stdout, bytes) else (e.stdout or '')
-        err = e.stderr.decode() if isinstance(e.stderr, bytes) else (e.stderr or '')
-        rc, to = -1, True
-        subprocess.run(['pkill', '-f', '/opt/veriftools/verus/z3'], capture_output=True)
+    import procgrp
+    out, err, rc, to = procgrp.run(cmd, timeout, env=env, cwd=os.path.dirname(path))
     js = None
     try:
         js = json.loads(out)
